@@ -165,6 +165,29 @@ func c14Run(f []string) (ans string) {
 		return fmt.Sprintf("ok %d b16=%d b10=%d b9=%d b4=%d l50=%d l450=%d", math.Float64bits(u),
 			termscaler.Bucket(16, u), termscaler.Bucket(10, u), termscaler.Bucket(9, u), termscaler.Bucket(4, u),
 			termscaler.LengthVal(50, u), termscaler.LengthVal(450, u))
+	case "scalego":
+		// the same Scale as `scale`; the model answers with the all-kernel arithmetic `goArith` (Go's math.Log2/Log10
+		// ported to the software binary64, Model/C14Log.lean) – the definitions the theorems log2_pow2_exact … are about
+		sc := c14Scaler(f[1])
+		u := sc.Scale(c14I64(f[2]), c14I64(f[3]), c14I64(f[4]))
+		return fmt.Sprintf("ok %d b16=%d", math.Float64bits(u), termscaler.Bucket(16, u))
+	case "log":
+		// <ln|log2|log10> <bit pattern, decimal>: math.Log / Log2 / Log10 of that float, bit for bit
+		bits, _ := strconv.ParseUint(f[2], 10, 64)
+		x := math.Float64frombits(bits)
+		var y float64
+		switch f[1] {
+		case "ln":
+			y = math.Log(x)
+		case "log2":
+			y = math.Log2(x)
+		default:
+			y = math.Log10(x)
+		}
+		if math.IsNaN(y) {
+			return "ok nan"
+		}
+		return fmt.Sprintf("ok %d", math.Float64bits(y))
 	case "barw":
 		c14Globals("0", f[1])
 		maxLen, _ := strconv.Atoi(f[2])
@@ -1006,6 +1029,58 @@ func c14Gen(r *Rand, tier string) []string {
 	}
 	for i := 0; i < nRender; i++ {
 		out = append(out, c14GenRender(r))
+	}
+	// Go's logarithms against their port to the software binary64 (Model/C14Log.lean): every power of two and of ten an
+	// int64 holds (the tables of log2_pow2_exact / log10_pow10_exact) and their neighbours, float64(int64) of random
+	// values, random bit patterns (subnormals, specials, negatives); the scaler with the all-kernel arithmetic
+	{
+		var xs []uint64
+		for k := 0; k < 64; k++ {
+			p := math.Float64bits(math.Ldexp(1, k))
+			xs = append(xs, p, p+1, p-1)
+		}
+		for k, p := 0, 1.0; k < 19; k, p = k+1, p*10 {
+			xs = append(xs, math.Float64bits(p), math.Float64bits(p)+1, math.Float64bits(p)-1)
+		}
+		xs = append(xs, 0, 1<<63, 1<<52, 0x7ff0000000000000, 0xfff0000000000000, 0x7ff8000000000001, 0x7fefffffffffffff,
+			math.Float64bits(0.5), math.Float64bits(math.Sqrt2/2), math.Float64bits(math.Sqrt2), math.Float64bits(3), math.Float64bits(-1))
+		nr := 300
+		if tier == "thorough" {
+			nr = 20000
+		}
+		for i := 0; i < nr; i++ {
+			switch r.Intn(3) {
+			case 0:
+				xs = append(xs, r.U64())
+			case 1:
+				xs = append(xs, math.Float64bits(float64(int64(r.U64()>>uint(r.Intn(63))))))
+			default:
+				xs = append(xs, math.Float64bits(math.Ldexp(1+float64(r.Intn(1<<20))/float64(1<<20), r.Range(-1022, 1023))))
+			}
+		}
+		for _, x := range xs {
+			if x&(0x7ff<<52) == 0 && x<<12 != 0 {
+				// subnormals are outside the scalers' domain (float64 of an int64), and amd64's log_amd64.s reads their
+				// exponent field as 2^-1023 (math.Log(5e-324) = -709.09 instead of -744.44): not compared
+				continue
+			}
+			for _, fn := range []string{"ln", "log2", "log10"} {
+				out = append(out, fmt.Sprintf("log %s %d", fn, x))
+			}
+		}
+		for k := 0; k <= 62; k++ {
+			out = append(out, fmt.Sprintf("scalego log2 %d %d %d", int64(1)<<uint(k), r.Intn(2), int64(1)<<62))
+		}
+		for k, p := 0, int64(1); k <= 18; k, p = k+1, p*10 {
+			out = append(out, fmt.Sprintf("scalego log10 %d 1 1000000000000000000", p), fmt.Sprintf("scalego log10 %d 1 %d", p, p))
+		}
+		for i := 0; i < nr; i++ {
+			v, mn, mx := c14Triple(r)
+			if r.Bool() {
+				v, mn, mx = c14F64Triple(r)
+			}
+			out = append(out, fmt.Sprintf("scalego %s %d %d %d", Pick(r, c14Scalers), v, mn, mx))
+		}
 	}
 	// scaler laws on boundary triples
 	grid := []int64{math.MinInt64, math.MinInt64 + 1, -(1 << 53) - 1, -1000, -2, -1, 0, 1, 2, 3, 9, 10, 11, 100, 1000, 1024, 1<<53 - 1, 1 << 53, 1<<53 + 1, 1 << 62, math.MaxInt64 - 1, math.MaxInt64}
